@@ -28,6 +28,8 @@ from __future__ import absolute_import
 import logging
 logger = logging.getLogger(__name__)
 
+from decimal import Decimal as D
+
 from spyne import ValidationError
 from spyne.util import six
 from spyne.model.binary import BINARY_ENCODING_BASE64
@@ -53,7 +55,7 @@ except ImportError:
     from yaml import SafeDumper
 
 
-NON_NUMBER_TYPES = tuple({list, dict, six.text_type, six.binary_type})
+NUMBER_TYPES = six.integer_types + (float, D)
 
 
 class YamlDocument(HierDictDocument):
@@ -135,10 +137,15 @@ class YamlDocument(HierDictDocument):
     def _ret(self, _, value):
         return value
 
-    def _ret_number(self, _, value):
-        if isinstance(value, NON_NUMBER_TYPES):
-            raise ValidationError(value)
+    def _ret_number(self, cls, value):
         if isinstance(value, bool):
+            return int(value)
+        if not isinstance(value, NUMBER_TYPES):
+            raise ValidationError(value)
+        if isinstance(value, float) and issubclass(cls, Integer):
+            # is_integer() is False for nan and the infinities as well
+            if not value.is_integer():
+                raise ValidationError(value)
             return int(value)
         return value
 
